@@ -78,6 +78,8 @@ impl Muxer {
         };
 
         let chunk_size = 100_000;
+        #[cfg(dovi_tool_verif)]
+        let chunk_size = crate::dovi::verif_chunk_size(chunk_size);
 
         let writer =
             BufWriter::with_capacity(chunk_size, File::create(output).expect("Can't create file"));
@@ -127,6 +129,8 @@ impl Muxer {
         stdout().flush().ok();
 
         let chunk_size = 100_000;
+        #[cfg(dovi_tool_verif)]
+        let chunk_size = crate::dovi::verif_chunk_size(chunk_size);
 
         let mut processor = HevcProcessor::new(
             self.format.clone(),
